@@ -422,7 +422,8 @@ SPEC = PropSpec(
                  "itself is Python's codec (trusted)."
                  ' R7.e2: the second end-to-end document of C01 (a length lookup whose first entry is only partly satisfied).'
                  ' R7.pure: the string / binary decoders keep nothing between packets (effect analysis); single-byte code pages are told apart in 0x80-0x9F (Windows-1252 vs ISO-8859-1).'
-                 ' R7.str also crosses the leading size tag with every length specification (fixed, reference calibrated / raw with adjustment, lookup): the computed length is the whole raw buffer, tag included.'),
+                 ' R7.str also crosses the leading size tag with every length specification (fixed, reference calibrated / raw with adjustment, lookup): the computed length is the whole raw buffer, tag included.'
+                 ' R7.xml also covers the four xs:boolean spellings of useCalibratedValue and every character-set name XTCE enumerates as declared.'),
     rule_doc="R7.bin per length specification over 8 offsets x 9 lengths; R7.str per (encoding, offset, delimiting) and per length spec; R7.xml per declared form",
     assumptions=["Python codecs", "cursor reads are exact (C03)", "criteria evaluation (C06)"],
     mutants=mutants,
